@@ -30,6 +30,9 @@ type NITask struct {
 	// leaf caller: cmds: [{task: leaf, vars: {TAG: Tag, V: Val}}]; leaf has vars: {R: {sh: 'echo r$V'}}
 	Leaf bool   `json:"leaf,omitempty"`
 	Val  string `json:"val,omitempty"`
+	// defer caller: cmds: [{task: dtask, vars: {TAG: Tag, NAME: Val}}]; dtask has two templated defer: entries
+	// (a command and a task call)
+	Dfr bool `json:"dfr,omitempty"`
 }
 
 // NICase: task Target run alone versus after / in parallel with the other tasks of Order.
@@ -42,6 +45,9 @@ type NICase struct {
 	Order      []int    `json:"order"` // tasks run in context, the target last (sequential) or anywhere (parallel)
 	Target     int      `json:"target"`
 	Parallel   bool     `json:"parallel"`
+	// Combine: how the tasks of Order are started in the in-context run: "" = one Run call with all of them,
+	// "cmds" / "for" / "deps" = one task `combo` that calls them through cmds:, a for: loop, or (concurrently) deps:
+	Combine    string   `json:"combine,omitempty"`
 	Alone      Outputs  `json:"alone"`
 	Ctx        Outputs  `json:"ctx"`
 	DefsBefore []Row    `json:"defs_before"`
@@ -66,18 +72,37 @@ func GenNICase(r *rand.Rand) *NICase {
 	if r.Intn(3) == 0 {
 		c.GEnv = append(c.GEnv, lit("GE", "genv"))
 	}
+	// Taskfile-level vars / env that refer to the per-task special variables
+	for _, e := range perTaskGlobals() {
+		if r.Intn(2) == 0 {
+			c.GVars = append(c.GVars, e)
+		}
+	}
+	for _, e := range perTaskGlobalEnv() {
+		if r.Intn(2) == 0 {
+			c.GEnv = append(c.GEnv, e)
+		}
+	}
 	c.Parallel = r.Intn(4) == 0
+	if !c.Parallel {
+		c.Combine = []string{"", "", "cmds", "for", "deps"}[r.Intn(5)]
+	}
+	concurrent := c.Parallel || c.Combine == "deps"
 	nt := 2 + r.Intn(3)
 	lists := []string{"LA", "LB", "LC"}
 	for k := 0; k < nt; k++ {
 		t := NITask{Name: fmt.Sprintf("t%d", k)}
-		if !c.Parallel && r.Intn(3) == 0 {
+		if !c.Parallel && r.Intn(5) < 2 {
 			t.Caller = true
 			t.Tag = string(rune('A' + k))
-			if r.Intn(3) == 0 {
+			switch x := r.Intn(5); {
+			case x < 2:
+				t.Dfr = true
+				t.Val = fmt.Sprintf("n%d", r.Intn(3))
+			case x == 2 || concurrent: // the matrix task only in sequential runs
 				t.Leaf = true
 				t.Val = fmt.Sprintf("v%d", r.Intn(2))
-			} else {
+			default:
 				t.List = lists[r.Intn(len(lists))]
 			}
 			c.Tasks = append(c.Tasks, t)
@@ -127,6 +152,32 @@ func GenNICase(r *rand.Rand) *NICase {
 	return c
 }
 
+func perTaskGlobals() []Entry {
+	return []Entry{tmplv("LOG", "logs/", "TASK", ".log"), tmplv("AL", "al-", "ALIAS", ""), shv("STAMP", "echo stamp-of-$TASK")}
+}
+
+func perTaskGlobalEnv() []Entry {
+	return []Entry{tmplv("GT", "e-", "TASK", ""), shv("GS", "echo es-$TASK")}
+}
+
+func present(es []Entry, names ...string) []string {
+	var out []string
+	for _, n := range names {
+		for _, e := range es {
+			if e.Name == n {
+				out = append(out, n)
+			}
+		}
+	}
+	return out
+}
+
+// the Taskfile-level names every plain task probes because their value depends on the task
+func (c *NICase) pgVars() []string { return present(c.GVars, "LOG", "AL", "STAMP") }
+func (c *NICase) pgEnv() []string  { return present(c.GEnv, "GT", "GS") }
+
+func specials(name string) []KV { return []KV{{"TASK", name}, {"ALIAS", name}} }
+
 func (c *NICase) yaml() string {
 	var sb strings.Builder
 	sb.WriteString("version: '3'\n")
@@ -139,8 +190,34 @@ func (c *NICase) yaml() string {
 	sb.WriteString("tasks:\n")
 	sb.WriteString("  m:\n    cmds:\n      - for: {matrix: {X: {ref: \".L\"}}}\n        cmd: " + yq("echo \"m|i|{{.TAG}}|{{.ITEM.X}}|\"") + "\n")
 	sb.WriteString("  leaf:\n    vars: {R: {sh: " + yq("echo r$V") + "}}\n    cmds: [" + yq("echo \"leaf|c|{{.TAG}}|{{.R}}|\"") + "]\n")
+	sb.WriteString("  dtask:\n    env: {DTAG: " + yq("{{.TAG}}") + "}\n    cmds:\n")
+	sb.WriteString("      - defer: " + yq("echo \"dfr|d|$DTAG|{{.NAME}}|\"") + "\n")
+	sb.WriteString("      - defer: {task: report, vars: {WHO: " + yq("{{.NAME}}") + ", RTAG: " + yq("{{.TAG}}") + "}}\n")
+	sb.WriteString("      - " + yq("echo \"dfr|s|$DTAG|start|\"") + "\n")
+	sb.WriteString("  report:\n    cmds: [" + yq("echo \"rep|r|{{.RTAG}}|{{.WHO}}|\"") + "]\n")
+	if c.Combine != "" {
+		var names []string
+		for _, k := range c.Order {
+			names = append(names, c.Tasks[k].Name)
+		}
+		switch c.Combine {
+		case "cmds":
+			sb.WriteString("  combo:\n    cmds:\n")
+			for _, n := range names {
+				sb.WriteString("      - task: " + n + "\n")
+			}
+		case "for":
+			sb.WriteString("  combo:\n    cmds:\n      - for: [" + strings.Join(names, ", ") + "]\n        task: " + yq("{{.ITEM}}") + "\n")
+		case "deps":
+			sb.WriteString("  combo:\n    deps: [" + strings.Join(names, ", ") + "]\n")
+		}
+	}
 	for _, t := range c.Tasks {
 		sb.WriteString("  " + t.Name + ":\n")
+		if t.Caller && t.Dfr {
+			sb.WriteString("    cmds:\n      - task: dtask\n        vars: {TAG: " + yq(t.Tag) + ", NAME: " + yq(t.Val) + "}\n")
+			continue
+		}
 		if t.Caller && t.Leaf {
 			sb.WriteString("    cmds:\n      - task: leaf\n        vars: {TAG: " + yq(t.Tag) + ", V: " + yq(t.Val) + "}\n")
 			continue
@@ -166,6 +243,12 @@ func (c *NICase) yaml() string {
 		}
 		for _, e := range t.Env {
 			cmds = append(cmds, yq(fmt.Sprintf("echo \"%s|e|%s|$%s|\"", t.Name, e.Name, e.Name)))
+		}
+		for _, n := range c.pgVars() {
+			cmds = append(cmds, yq(fmt.Sprintf("echo \"%s|v|%s|{{.%s}}|\"", t.Name, n, n)))
+		}
+		for _, n := range c.pgEnv() {
+			cmds = append(cmds, yq(fmt.Sprintf("echo \"%s|e|%s|$%s|\"", t.Name, n, n)))
 		}
 		if len(cmds) == 0 {
 			cmds = append(cmds, yq("true"))
@@ -196,6 +279,18 @@ func dumpDefs(e *task.Executor) []Row {
 	var rows []Row
 	for name, t := range e.Taskfile.Tasks.All(nil) {
 		for ci, cmd := range t.Cmds {
+			if cmd != nil && cmd.Defer {
+				// every field runDeferred renders (and could write back)
+				items := []string{"cmd=" + cmd.Cmd, "task=" + cmd.Task}
+				for k, v := range cmd.Vars.All() {
+					sh := ""
+					if v.Sh != nil {
+						sh = *v.Sh
+					}
+					items = append(items, fmt.Sprintf("var %s=%v sh=%s ref=%s", k, v.Value, sh, v.Ref))
+				}
+				rows = append(rows, Row{Key: fmt.Sprintf("%s/%d/defer", name, ci), Items: items})
+			}
 			if cmd == nil || cmd.For == nil || cmd.For.Matrix == nil {
 				continue
 			}
@@ -221,9 +316,58 @@ func newExecutor(root string, out, errw *lockedBuf, parallel bool) (*task.Execut
 }
 
 // outputsOf extracts the target's probe values from the output.
-func (c *NICase) outputsOf(out, root string) Outputs {
+func (c *NICase) outputsOf(out, root string, alone bool) Outputs {
 	t := c.Tasks[c.Target]
-	o := Outputs{Vars: []string{}, Env: []string{}, Items: []string{}}
+	o := Outputs{Vars: []string{}, Env: []string{}, Items: []string{}, Defers: []string{}}
+	if t.Caller && t.Dfr {
+		// the deferred command carries the call's tag through the (per-call) environment; the deferred
+		// task call can only be attributed by its position when the calls ran one after the other
+		var echo, rep, repTagged []string
+		for _, ln := range strings.Split(out, "\n") {
+			f := strings.Split(ln, "|")
+			if len(f) >= 5 && f[0] == "dfr" && f[1] == "d" && f[2] == t.Tag {
+				echo = append(echo, f[3])
+			}
+			if len(f) >= 5 && f[0] == "rep" && f[1] == "r" {
+				rep = append(rep, f[3])
+				if f[2] == t.Tag {
+					repTagged = append(repTagged, f[3])
+				}
+			}
+		}
+		pick := func(l []string, i int) string {
+			if i < len(l) {
+				return l[i]
+			}
+			return fmt.Sprintf("!%d", len(l))
+		}
+		pos := 0
+		if !alone {
+			for _, k := range c.Order {
+				if k == c.Target {
+					break
+				}
+				if c.Tasks[k].Dfr {
+					pos++
+				}
+			}
+		}
+		if len(echo) == 1 {
+			o.Defers = append(o.Defers, echo[0])
+		} else {
+			o.Defers = append(o.Defers, fmt.Sprintf("!%d", len(echo)))
+		}
+		if !alone && (c.Parallel || c.Combine == "deps") {
+			if len(repTagged) == 1 {
+				o.Defers = append(o.Defers, repTagged[0])
+			} else {
+				o.Defers = append(o.Defers, fmt.Sprintf("!%d", len(repTagged)))
+			}
+		} else {
+			o.Defers = append(o.Defers, pick(rep, pos))
+		}
+		return o
+	}
 	if t.Caller {
 		for _, ln := range strings.Split(out, "\n") {
 			f := strings.Split(ln, "|")
@@ -255,6 +399,12 @@ func (c *NICase) outputsOf(out, root string) Outputs {
 	for _, e := range t.Env {
 		o.Env = append(o.Env, get("e/"+e.Name))
 	}
+	for _, n := range c.pgVars() {
+		o.Vars = append(o.Vars, get("v/"+n))
+	}
+	for _, n := range c.pgEnv() {
+		o.Env = append(o.Env, get("e/"+n))
+	}
 	return o
 }
 
@@ -284,7 +434,7 @@ func (c *NICase) Run() error {
 	if err := e1.Run(context.Background(), &task.Call{Task: c.Tasks[c.Target].Name}); err != nil {
 		c.Err = "alone: " + err.Error()
 	}
-	c.Alone = c.outputsOf(out1.String(), root)
+	c.Alone = c.outputsOf(out1.String(), root, true)
 	// in context: one Executor for all the tasks of Order
 	var out2, err2 lockedBuf
 	e2, err := newExecutor(root, &out2, &err2, c.Parallel)
@@ -296,10 +446,13 @@ func (c *NICase) Run() error {
 	for _, k := range c.Order {
 		calls = append(calls, &task.Call{Task: c.Tasks[k].Name})
 	}
+	if c.Combine != "" {
+		calls = []*task.Call{{Task: "combo"}}
+	}
 	if err := e2.Run(context.Background(), calls...); err != nil {
 		c.Err += " ctx: " + err.Error()
 	}
-	c.Ctx = c.outputsOf(out2.String(), root)
+	c.Ctx = c.outputsOf(out2.String(), root, false)
 	c.DefsAfter = dumpDefs(e2)
 	return nil
 }
@@ -317,24 +470,33 @@ func (c *NICase) ctxs(order []int) ([]Ctx, int) {
 			dir = "ROOT/" + t.Dir
 		}
 		if t.Caller {
-			xs = append(xs, Ctx{Name: t.Name, Special: []KV{{"TASK", t.Name}}, GEnv: c.GEnv, GVars: gv, RootDir: "ROOT", TaskDir: "ROOT"})
+			xs = append(xs, Ctx{Name: t.Name, Special: specials(t.Name), GEnv: c.GEnv, GVars: gv, RootDir: "ROOT", TaskDir: "ROOT"})
 			if k == c.Target {
 				target = len(xs)
 			}
+			if t.Dfr {
+				xs = append(xs, Ctx{Name: "dtask", Special: specials("dtask"), GEnv: c.GEnv, GVars: gv,
+					Call: []Entry{lit("TAG", t.Tag), lit("NAME", t.Val)}, TEnv: []Entry{tmplv("DTAG", "", "TAG", "")},
+					RootDir: "ROOT", TaskDir: "ROOT", Defers: [][]Part{{{Var: "NAME"}}, {{Var: "NAME"}}}})
+				// the deferred task call, compiled when dtask ends
+				xs = append(xs, Ctx{Name: "report", Special: specials("report"), GEnv: c.GEnv, GVars: gv,
+					Call: []Entry{lit("WHO", t.Val), lit("RTAG", t.Tag)}, RootDir: "ROOT", TaskDir: "ROOT"})
+				continue
+			}
 			if t.Leaf {
-				xs = append(xs, Ctx{Name: "leaf", Special: []KV{{"TASK", "leaf"}}, GEnv: c.GEnv, GVars: gv,
+				xs = append(xs, Ctx{Name: "leaf", Special: specials("leaf"), GEnv: c.GEnv, GVars: gv,
 					Call: []Entry{lit("TAG", t.Tag), lit("V", t.Val)}, TVars: []Entry{shv("R", "echo r$V")},
 					RootDir: "ROOT", TaskDir: "ROOT", VProbes: []string{"R"}})
 				continue
 			}
-			xs = append(xs, Ctx{Name: "m", Special: []KV{{"TASK", "m"}}, GEnv: c.GEnv, GVars: gv,
+			xs = append(xs, Ctx{Name: "m", Special: specials("m"), GEnv: c.GEnv, GVars: gv,
 				Call: []Entry{lit("TAG", t.Tag), lit("L", niLists[t.List])}, RootDir: "ROOT", TaskDir: "ROOT", Matrix: "L"})
 			continue
 		}
 		if k == c.Target {
 			target = len(xs)
 		}
-		x := Ctx{Name: t.Name, Special: []KV{{"TASK", t.Name}}, GEnv: c.GEnv, GVars: gv, TVars: t.Vars, TEnv: t.Env, RootDir: "ROOT", TaskDir: dir}
+		x := Ctx{Name: t.Name, Special: specials(t.Name), GEnv: c.GEnv, GVars: gv, TVars: t.Vars, TEnv: t.Env, RootDir: "ROOT", TaskDir: dir}
 		if t.DirVar {
 			x.DirVar = "G" + strings.ToUpper(t.Dir)
 		}
@@ -344,6 +506,8 @@ func (c *NICase) ctxs(order []int) ([]Ctx, int) {
 		for _, e := range t.Env {
 			x.EProbes = append(x.EProbes, e.Name)
 		}
+		x.VProbes = append(x.VProbes, c.pgVars()...)
+		x.EProbes = append(x.EProbes, c.pgEnv()...)
 		xs = append(xs, x)
 	}
 	return xs, target
@@ -351,6 +515,11 @@ func (c *NICase) ctxs(order []int) ([]Ctx, int) {
 
 func (c *NICase) Coq() string {
 	xs, target := c.ctxs(c.Order)
+	if c.Combine != "" {
+		// the combining task is compiled first (it evaluates the Taskfile-level variables for itself)
+		xs = append([]Ctx{{Name: "combo", Special: specials("combo"), GEnv: c.GEnv, GVars: c.GVars, RootDir: "ROOT", TaskDir: "ROOT"}}, xs...)
+		target++
+	}
 	items := make([]string, len(xs))
 	for i, x := range xs {
 		items[i] = coqCtx(x)
@@ -361,7 +530,7 @@ func (c *NICase) Coq() string {
 		aitems[i] = coqCtx(x)
 	}
 	return fmt.Sprintf("{| nr_os := []; nr_tasks := %s; nr_target := %d; nr_parallel := %s; nr_alone_tasks := %s; nr_alone := %s; nr_ctx := %s; nr_defs_before := %s; nr_defs_after := %s |}",
-		cg.List(items), target, cg.Bool(c.Parallel), cg.List(aitems), coqOutputs(c.Alone), coqOutputs(c.Ctx), coqRows(c.DefsBefore), coqRows(c.DefsAfter))
+		cg.List(items), target, cg.Bool(c.Parallel || c.Combine == "deps"), cg.List(aitems), coqOutputs(c.Alone), coqOutputs(c.Ctx), coqRows(c.DefsBefore), coqRows(c.DefsAfter))
 }
 
 // StressMatrix: concurrent CompiledTask calls of the matrix task with different
